@@ -317,7 +317,7 @@ func (fe *FuncEnc) loopContract(f *Frame, li *loopInfo) *LoopContract {
 }
 
 // loopNames binds source-level names visible in loop contracts to terms.
-func (fe *FuncEnc) loopNames(f *Frame, li *loopInfo, phiVal func(*ssa.Phi) Term, st *State) map[string]TV {
+func (fe *FuncEnc) loopNames(f *Frame, li *loopInfo, phiVal func(*ssa.Phi) Term, st *State, ghost Term) map[string]TV {
 	m := map[string]TV{}
 	for _, in := range li.header.Instrs {
 		if nx, ok := in.(*ssa.Next); ok {
@@ -374,6 +374,10 @@ func (fe *FuncEnc) loopNames(f *Frame, li *loopInfo, phiVal func(*ssa.Phi) Term,
 			}
 		}
 	}
+	// any other loop shape: a ghost counter of completed iterations (0 at entry, +1 on every back edge)
+	if _, ok := m["iter"]; !ok && ghost.S != "" {
+		m["iter"] = TV{ghost, types.Typ[types.Int]}
+	}
 	return m
 }
 
@@ -395,7 +399,7 @@ func (fe *FuncEnc) enterLoop(f *Frame, li *loopInfo, reach Term, st *State) (Ter
 	}
 	// inv.entry
 	if lc != nil {
-		names := fe.loopNames(f, li, func(p *ssa.Phi) Term { return entryVals[p] }, st)
+		names := fe.loopNames(f, li, func(p *ssa.Phi) Term { return entryVals[p] }, st, tInt(0))
 		for _, inv := range lc.Invariants {
 			t := fe.evalClause(f, inv, st, f.entry, names, nil, b2pos(h, pos))
 			fe.emit("inv.entry", fmt.Sprintf("loop%d.%s", li.ord, inv.Label), reach, t, inv.Text, pos)
@@ -470,7 +474,13 @@ func (fe *FuncEnc) enterLoop(f *Frame, li *loopInfo, reach Term, st *State) (Ter
 	if f.mon != nil {
 		fe.monLoopHavoc(f, li, st, reach)
 	}
-	names := fe.loopNames(f, li, func(p *ssa.Phi) Term { return f.vals[p] }, st)
+	gi := fe.fresh(fmt.Sprintf("iter_L%d", li.ord), SInt)
+	fe.assume(reach, tLe(tInt(0), gi))
+	if f.ghostIter == nil {
+		f.ghostIter = map[*ssa.BasicBlock]Term{}
+	}
+	f.ghostIter[h] = gi
+	names := fe.loopNames(f, li, func(p *ssa.Phi) Term { return f.vals[p] }, st, gi)
 	if lc != nil {
 		for _, inv := range lc.Invariants {
 			t := fe.evalClause(f, inv, st, f.entry, names, nil, b2pos(h, pos))
@@ -521,7 +531,11 @@ func (fe *FuncEnc) backEdge(f *Frame, li *loopInfo, from *ssa.BasicBlock, cond T
 		fe.emit("effect.E3", fmt.Sprintf("loop%d", li.ord), cond, tNot(hf), "C06: an interpreted loop does not go round again in an iteration that began after a runtime error", pos)
 		fe.obls[len(fe.obls)-1].Props = []string{"C06"}
 	}
-	names := fe.loopNames(f, li, phiVal, st)
+	var gnext Term
+	if g, ok := f.ghostIter[h]; ok {
+		gnext = tAdd(g, tInt(1))
+	}
+	names := fe.loopNames(f, li, phiVal, st, gnext)
 	for _, inv := range lc.Invariants {
 		t := fe.evalClause(f, inv, st, f.entry, names, nil, pos)
 		fe.emit("inv.step", fmt.Sprintf("loop%d.%s", li.ord, inv.Label), cond, t, inv.Text, pos)
